@@ -1,8 +1,10 @@
-// C05 (index level): index::apply_shape_slice / index::apply_slice on run-time shapes.
+// C05 (index level, shared by the c05_ix_*.cpp binaries): index::apply_shape_slice / index::apply_slice on run-time shapes.
 //   packed ops   : <op> <shapekind> <shape vec> <3 tokens per part> <nq> <query vec>*
 //   dynamic ops  : <op> <shapekind> <shape vec> <np> (<kind> a b c)*np <nq> <query vec>*
 // output: SH <result shape vec> Q <count> (<dest index vec> <source index vec>)*
 // nq == 0: the harness enumerates the reported result shape with its own odometer (first 64 indices).
+#ifndef VERIF_HARNESS_C05_INDEX_HPP
+#define VERIF_HARNESS_C05_INDEX_HPP
 #include "c05_common.hpp"
 
 using namespace c05;
@@ -106,30 +108,19 @@ static void run_packed(vh::Args& in, vh::Out& out)
 #define IXP(name, ...) \
     VH_OP(name) { run_packed<__VA_ARGS__>(in, out); }
 
-// ---- single axis: 12 None-patterns x {int, long long} -------------------------------
-#define SINGLE(T, sfx)                   \
-    IXP(p_ii_##sfx, P_ii<T>)             \
-    IXP(p_in_##sfx, P_in<T>)             \
-    IXP(p_ni_##sfx, P_ni<T>)             \
-    IXP(p_nn_##sfx, P_nn<T>)             \
-    IXP(p_iii_##sfx, P_iii<T>)           \
-    IXP(p_iin_##sfx, P_iin<T>)           \
-    IXP(p_ini_##sfx, P_ini<T>)           \
-    IXP(p_inn_##sfx, P_inn<T>)           \
-    IXP(p_nii_##sfx, P_nii<T>)           \
-    IXP(p_nin_##sfx, P_nin<T>)           \
-    IXP(p_nni_##sfx, P_nni<T>)           \
-    IXP(p_nnn_##sfx, P_nnn<T>)
-SINGLE(int, i)
-SINGLE(long long, l)
-// index arrays as packed parts
-IXP(p_a3_i, nmtools_array<int, 3>)
-IXP(p_a2_i, nmtools_array<int, 2>)
-IXP(p_a3_l, nmtools_array<long long, 3>)
-// a single integer (result has dimension 0)
-IXP(p_I, int)
+// ---- dynamic encodings ------------------------------------------------------------
+template <typename slices_t>
+static void run_dyn(vh::Args& in, vh::Out& out, slices_t (*reader)(vh::Args&))
+{
+    auto kind = in.i();
+    auto shape = in.vec();
+    const auto slices = reader(in);
+    auto qs = read_queries(in);
+    dispatch<0, 0>(out, kind, shape, slices, qs);
+}
+#define IXD(name, reader) \
+    VH_OP(name) { run_dyn(in, out, &reader); }
 
-// ---- multi axis (packed): integers / ellipsis / ranges in every position ------------
 using I = int;
 using E = ellipsis_t;
 using R = P_iii<int>;
@@ -144,99 +135,8 @@ using Rg = P_iin<int>;
 using Rh = P_nin<int>;
 using Ri = P_inn<int>;
 using Rj = P_nnn<int>;
-// length 2
-IXP(m_I_I, I, I)
-IXP(m_I_R, I, R)
-IXP(m_R_I, R, I)
-IXP(m_R_R, R, R)
-IXP(m_I_E, I, E)
-IXP(m_E_I, E, I)
-IXP(m_R_E, R, E)
-IXP(m_E_R, E, R)
-IXP(m_E, E)
-// length 2 with None-patterns mixed in
-IXP(m_Ra_Rb, Ra, Rb)
-IXP(m_Rc_Rd, Rc, Rd)
-IXP(m_Re_Rf, Re, Rf)
-IXP(m_Rg_Rh, Rg, Rh)
-IXP(m_Ri_Rj, Ri, Rj)
-IXP(m_Rn_I, Rn, I)
-IXP(m_I_Rc, I, Rc)
-IXP(m_E_Rd, E, Rd)
-IXP(m_Rb_E, Rb, E)
-// length 3
-IXP(m_I_I_I, I, I, I)
-IXP(m_I_I_R, I, I, R)
-IXP(m_I_R_I, I, R, I)
-IXP(m_R_I_I, R, I, I)
-IXP(m_I_R_R, I, R, R)
-IXP(m_R_I_R, R, I, R)
-IXP(m_R_R_I, R, R, I)
-IXP(m_R_R_R, R, R, R)
-IXP(m_E_I_I, E, I, I)
-IXP(m_E_I_R, E, I, R)
-IXP(m_E_R_I, E, R, I)
-IXP(m_E_R_R, E, R, R)
-IXP(m_I_E_I, I, E, I)
-IXP(m_I_E_R, I, E, R)
-IXP(m_R_E_I, R, E, I)
-IXP(m_R_E_R, R, E, R)
-IXP(m_I_I_E, I, I, E)
-IXP(m_I_R_E, I, R, E)
-IXP(m_R_I_E, R, I, E)
-IXP(m_R_R_E, R, R, E)
-// length 3 / 4 with None-patterns and an ellipsis standing for zero axes
-IXP(m_Rc_Ra_Rb, Rc, Ra, Rb)
-IXP(m_Rd_I_Re, Rd, I, Re)
-IXP(m_Rn_Rc_I, Rn, Rc, I)
-IXP(m_R_E_R_R, R, E, R, R)
-IXP(m_E_R_I_R, E, R, I, R)
-IXP(m_I_R_R_E, I, R, R, E)
-
-// ---- dynamic encodings ------------------------------------------------------------
-template <typename slices_t>
-static void run_dyn(vh::Args& in, vh::Out& out, slices_t (*reader)(vh::Args&))
-{
-    auto kind = in.i();
-    auto shape = in.vec();
-    const auto slices = reader(in);
-    auto qs = read_queries(in);
-    dispatch<0, 0>(out, kind, shape, slices, qs);
-}
-#define IXD(name, reader) \
-    VH_OP(name) { run_dyn(in, out, &reader); }
-
-// plain lists of one range type (no either): 12 None-patterns + index arrays
-IXD(d_ii, read_plain_list<P_ii<int>>)
-IXD(d_in, read_plain_list<P_in<int>>)
-IXD(d_ni, read_plain_list<P_ni<int>>)
-IXD(d_nn, read_plain_list<P_nn<int>>)
-IXD(d_iii, read_plain_list<P_iii<int>>)
-IXD(d_iin, read_plain_list<P_iin<int>>)
-IXD(d_ini, read_plain_list<P_ini<int>>)
-IXD(d_inn, read_plain_list<P_inn<int>>)
-IXD(d_nii, read_plain_list<P_nii<int>>)
-IXD(d_nin, read_plain_list<P_nin<int>>)
-IXD(d_nni, read_plain_list<P_nni<int>>)
-IXD(d_nnn, read_plain_list<P_nnn<int>>)
 using A3 = nmtools_array<int, 3>;
 using A2 = nmtools_array<int, 2>;
-IXD(d_a3, read_plain_list<A3>)
-IXD(d_a2, read_plain_list<A2>)
-IXD(d_a3_l, read_plain_list<nmtools_array<long long, 3>>)
-// lists of either<int, either<ellipsis, R>>
-IXD(e1_iii, read_e1_list<P_iii<int>>)
-IXD(e1_ii, read_e1_list<P_ii<int>>)
-IXD(e1_nn, read_e1_list<P_nn<int>>)
-IXD(e1_ni, read_e1_list<P_ni<int>>)
-IXD(e1_in, read_e1_list<P_in<int>>)
-IXD(e1_nni, read_e1_list<P_nni<int>>)
-IXD(e1_ini, read_e1_list<P_ini<int>>)
-IXD(e1_nii, read_e1_list<P_nii<int>>)
-IXD(e1_a3, read_e1_list<A3>)
-IXD(e1_a2, read_e1_list<A2>)
-// the other nesting order
-IXD(e2_iii, read_e2_list<P_iii<int>>)
-IXD(e2_a3, read_e2_list<A3>)
+using A3l = nmtools_array<long long, 3>;
 
-VH_MAIN()
+#endif
